@@ -1,6 +1,7 @@
 //! `dh` - conformance harness for the deserr TLA+ specifications.
 //! Every sub-command drives the real deserr code and writes an ndjson event trace on stdout
 //! (impl -> spec), optionally from replay records produced by TLC (spec -> impl) on stdin.
+mod dym;
 mod kinds;
 mod ptr;
 mod util;
@@ -11,6 +12,7 @@ fn main() {
     match args.first().map(|s| s.as_str()) {
         Some("ptr") => ptr::main(rest),
         Some("kinds") => kinds::main(rest),
+        Some("dym") => dym::main(rest),
         _ => {
             eprintln!("usage: dh <ptr|kinds|dym|scalar|bridge|core> ...");
             std::process::exit(2);
